@@ -1173,14 +1173,14 @@ def _oauth_signature(
     """
     parts = urllib.parse.urlparse(url)
     scheme, netloc, path = parts[:3]
-    normalized_url = scheme.lower() + "://" + netloc.lower() + path
+    normalized_url = (
+        scheme.lower() + "://" + _oauth_normalized_netloc(scheme, netloc) + path
+    )
 
     base_elems = []
     base_elems.append(method.upper())
     base_elems.append(normalized_url)
-    base_elems.append(
-        "&".join(f"{k}={_oauth_escape(str(v))}" for k, v in sorted(parameters.items()))
-    )
+    base_elems.append(_oauth_normalized_parameters(parameters))
     base_string = "&".join(_oauth_escape(e) for e in base_elems)
 
     key_elems = [escape.utf8(consumer_token["secret"])]
@@ -1204,14 +1204,14 @@ def _oauth10a_signature(
     """
     parts = urllib.parse.urlparse(url)
     scheme, netloc, path = parts[:3]
-    normalized_url = scheme.lower() + "://" + netloc.lower() + path
+    normalized_url = (
+        scheme.lower() + "://" + _oauth_normalized_netloc(scheme, netloc) + path
+    )
 
     base_elems = []
     base_elems.append(method.upper())
     base_elems.append(normalized_url)
-    base_elems.append(
-        "&".join(f"{k}={_oauth_escape(str(v))}" for k, v in sorted(parameters.items()))
-    )
+    base_elems.append(_oauth_normalized_parameters(parameters))
 
     base_string = "&".join(_oauth_escape(e) for e in base_elems)
     key_elems = [escape.utf8(urllib.parse.quote(consumer_token["secret"], safe="~"))]
@@ -1222,6 +1222,23 @@ def _oauth10a_signature(
 
     hash = hmac.new(key, escape.utf8(base_string), hashlib.sha1)
     return binascii.b2a_base64(hash.digest())[:-1]
+
+
+def _oauth_normalized_netloc(scheme: str, netloc: str) -> str:
+    """Lowercases the authority and drops the scheme's default port (RFC 5849 3.4.1.2)."""
+    netloc = netloc.lower()
+    host, sep, port = netloc.rpartition(":")
+    if sep and (scheme.lower(), port) in (("http", "80"), ("https", "443")):
+        netloc = host
+    return netloc
+
+
+def _oauth_normalized_parameters(parameters: dict[str, Any]) -> str:
+    """Encodes names and values, then sorts the encoded pairs (RFC 5849 3.4.1.3.2)."""
+    pairs = sorted(
+        (_oauth_escape(str(k)), _oauth_escape(str(v))) for k, v in parameters.items()
+    )
+    return "&".join(f"{k}={v}" for k, v in pairs)
 
 
 def _oauth_escape(val: str | bytes) -> str:
